@@ -66,7 +66,7 @@ pub struct Case {
 
 /// hostile storage idioms: mask/shift/multiply/hash patterns around storage with constants at
 /// and beyond every width the lifting passes convert to native integers
-fn g_hostile_idiom(ch: &mut Chooser) -> gen::B {
+pub fn g_hostile_idiom(ch: &mut Chooser) -> gen::B {
     use crate::refword::W;
     let mut b = gen::B::new();
     let hostile = |ch: &mut Chooser| -> W {
